@@ -1,0 +1,32 @@
+//go:build !verif
+
+// Package verifhook provides schedule points and observation points for the
+// model-based verification harness. It is only active when built with the
+// "verif" build tag; without the tag every function is an empty, inlined no-op.
+package verifhook
+
+import "sync"
+
+// Enabled reports whether a hook is installed.
+func Enabled() bool { return false }
+
+// At marks a schedule point before a non-blocking action.
+func At(point string) {}
+
+// AtI marks a schedule point and passes two integers to the hook.
+func AtI(point string, a, b int64) {}
+
+// AtIf marks a schedule point before an action that blocks unless enabled().
+func AtIf(point string, enabled func() bool) {}
+
+// AtRLock marks a schedule point before mu.RLock().
+func AtRLock(point string, mu *sync.RWMutex) {}
+
+// AtLock marks a schedule point before mu.Lock().
+func AtLock(point string, mu *sync.RWMutex) {}
+
+// AtMutex marks a schedule point before mu.Lock() of a plain mutex.
+func AtMutex(point string, mu *sync.Mutex) {}
+
+// Log records an observation without yielding.
+func Log(point string, a, b int64, s string) {}
